@@ -86,7 +86,7 @@ PLANS = {
  "C02": dict(level="proof", pred=READER, b=["b_text_to_dict", "b_numbers"], canaries=["singleton_plural", "key_not_lowered", "hexcolor_case"],
              explanation="every transformer callback verified against the documented text-to-dict contract for the argument shapes larkshape derives from the compiled grammar; the block fold (composite) for one arbitrary item and an arbitrary accumulator; Lark's tree construction assumed and validated by the bounded text-to-dict seam"),
  "C04": dict(level="proof", pred=by(PP + "format_value", "mappyfile.quoter.", "lemma:Lemma", TR + "expression", TR + "comparison", TR + "and_test", TR + "or_test", TR + "not_expression", PP + "pprint", PP + "_format", PP + "process_dict", PP + "process_key_dict", PP + "process_config_dict", PP + "process_repeated_list", PP + "process_projection", PP + "process_attribute", PP + "get_attribute_properties"),
-             e=["c12_tables"], b=["b_idempotent", "b_escape_idempotent", "b_numbers"], canaries=["enum_not_upper", "expr_never_wraps"],
+             e=["c12_tables"], b=["b_idempotent", "b_escape_idempotent", "b_numbers", "b_is_group"], canaries=["enum_not_upper", "expr_never_wraps"],
              explanation="printer-side clauses (normal-form value text per slot, no parentheses piled up on re-parsing, determinism by purity: no time/random/id/hash, no module state) proved; idempotence of escape_quotes (replace chains: both solvers give up) and the lexer seam are bounded"),
  "C05": dict(level="other", pred=by(TR + "key_name", TR + "clean_string", TR + "attr", TR + "composite_type", "mappyfile.parser.Parser.parse", "mappyfile.quoter.Quoter.remove_quotes", "lemma:LemmaRoundTrip", TR + "process_value_pairs", TR + "config"),
              e=["c05_tables"], b=["b_surface"], canaries=["retype_case", "key_not_lowered"],
